@@ -292,20 +292,20 @@ def _key(m) -> str:
 
 def shape_of(m) -> dict:
     if isinstance(m, EmptyMarker):
-        return {"k": "empty", "key": "<empty>", "n": 0, "ch": []}
+        return {"k": "empty", "key": "<empty>", "n": 0, "nd": 0, "ch": []}
     if isinstance(m, AnyMarker):
-        return {"k": "any", "key": "", "n": 0, "ch": []}
+        return {"k": "any", "key": "", "n": 0, "nd": 0, "ch": []}
     if isinstance(m, MarkerExpression):
-        return {"k": "atom", "key": _key(m), "n": 1, "ch": []}
+        return {"k": "atom", "key": _key(m), "n": 1, "nd": 1, "ch": []}
     if isinstance(m, EqualityMarkerUnion):
-        return {"k": "eqgroup", "key": _key(m), "n": len(m.values), "ch": []}
+        return {"k": "eqgroup", "key": _key(m), "n": len(list(m.values)), "nd": len(set(m.values)), "ch": []}
     if isinstance(m, InequalityMultiMarker):
-        return {"k": "negroup", "key": _key(m), "n": len(m.values), "ch": []}
+        return {"k": "negroup", "key": _key(m), "n": len(list(m.values)), "nd": len(set(m.values)), "ch": []}
     if isinstance(m, MultiMarker):
-        return {"k": "and", "key": _key(m), "n": len(m.markers), "ch": [shape_of(c) for c in m.markers]}
+        return {"k": "and", "key": _key(m), "n": len(m.markers), "nd": len(m.markers), "ch": [shape_of(c) for c in m.markers]}
     if isinstance(m, MarkerUnion):
-        return {"k": "or", "key": _key(m), "n": len(m.markers), "ch": [shape_of(c) for c in m.markers]}
-    return {"k": "other:" + type(m).__name__, "key": _key(m), "n": 0, "ch": []}
+        return {"k": "or", "key": _key(m), "n": len(m.markers), "nd": len(m.markers), "ch": [shape_of(c) for c in m.markers]}
+    return {"k": "other:" + type(m).__name__, "key": _key(m), "n": 0, "nd": 0, "ch": []}
 
 
 def vars_of(m) -> set[str]:
@@ -386,7 +386,7 @@ class MSession:
         events = []
         for i, (ev, obj) in enumerate(zip(self.raw, self.objs)):
             full = {"op": ev["op"], "a": ev["a"], "b": ev["b"], "text": ev["text"], "exc": ev["exc"], "names": ev["names"],
-                    "table": [], "ref": [], "shape": {"k": "empty", "key": "", "n": 0, "ch": []}, "vars": [], "is_empty": False, "is_any": False,
+                    "table": [], "ref": [], "shape": {"k": "empty", "key": "", "n": 0, "nd": 0, "ch": []}, "vars": [], "is_empty": False, "is_any": False,
                     "eq": [], "eq_rev": [], "eq_self": True, "hash_eq": [], "pkg_accepts": ev.get("pkg_accepts", True),
                     "has_empty_token": ev.get("has_empty_token", False), "law": ev.get("law", ""), "law_pid": ev.get("law_pid", "C14"), "str": ""}
             if obj is not None:
@@ -431,12 +431,13 @@ def pick_vars(rng: random.Random) -> list[str]:
     return rng.choice(pools)
 
 
-def random_session(sid: int, seed: int, length: int = 20) -> dict:
+def random_session(sid: int, seed: int, length: int = 24) -> dict:
     rng = random.Random(seed)
     s = MSession(sid, seed)
     variables = pick_vars(rng)
     set_atom_pool(rng, variables, rng.choice([4, 5, 6]))
     live = []
+    neutral: list = []
 
     def followups(r):
         """Every new result is rendered and re-parsed (C07); compound ones are also projected (C12)."""
@@ -456,6 +457,14 @@ def random_session(sid: int, seed: int, length: int = 20) -> dict:
                 s.project("exclude", r, [v])
         if not s.dead and rng.random() < 0.35:
             s.project("only", r, rng.sample(variables, rng.randint(1, len(variables))))
+        # neutral / absorbing operands in both positions: results must not keep them inside
+        if not s.dead and neutral and rng.random() < 0.35:
+            e, a = neutral
+            which = rng.choice(["or_e", "e_or", "and_a", "a_and"])
+            nr = {"or_e": lambda: s.binop("or", r, e), "e_or": lambda: s.binop("or", e, r),
+                  "and_a": lambda: s.binop("and", r, a), "a_and": lambda: s.binop("and", a, r)}[which]()
+            if nr is not None and not s.dead:
+                s.reparse(nr)
 
     for _ in range(rng.randint(2, 3)):
         r = s.parse(gen_marker(rng, variables, rng.choice([0, 1, 1, 2])))
@@ -463,10 +472,12 @@ def random_session(sid: int, seed: int, length: int = 20) -> dict:
             return s.finish(seed + 1)
         live.append(r)
         followups(r)
-    if rng.random() < 0.15 and not s.dead:
-        r = s.parse(rng.choice(["", "<empty>"]))
-        if r is not None:
-            live.append(r)
+    if not s.dead:
+        e, a = s.parse("<empty>"), s.parse("")
+        if e is not None and a is not None:
+            neutral.extend([e, a])
+            if rng.random() < 0.15:
+                live.append(rng.choice([e, a]))
     while len(s.raw) < length and not s.dead:
         x = rng.random()
         a = rng.choice(live)
